@@ -218,6 +218,111 @@ def _nodes(n, acc=None):
     return acc
 
 
+# ---- join kinds between the data tables: which ON conjuncts may be pushed into a table's fetch -------------------------------------------
+# every spelling of a join kind the live grammar accepts (read from the productions of `join_type`-like rules at run time, plus other letter
+# cases) x ON clauses holding single-table conjuncts x WHERE clauses; the oracle is the property's sentence: a pushed filter is a top-level
+# WHERE conjunct on that table, or a conjunct of the ON clause of an INNER / LEFT join on that table - never of a RIGHT / FULL join
+ON_FILTERS = ['u.k = 4', 't.k = 4', 'u.k > 1 AND t.z = 2', '4 = u.k', 'u.k IS NOT NULL']
+JK_WHERES = ['', ' WHERE m.x = 3', ' WHERE t.a > 1 AND m.x = 3', ' WHERE u.b < 2']
+
+
+def join_spellings():
+    """join kind spellings of the live mindsdb grammar: terminal sequences ending in JOIN of the productions that derive a join kind"""
+    from mindsdb_sql.parser.dialects.mindsdb.parser import MindsDBParser
+    out = []
+    for p in MindsDBParser._grammar.Productions[1:]:
+        syms = [str(x) for x in p.prod]
+        if syms and syms[-1] == 'JOIN' and all(x.isupper() for x in syms):
+            sp = ' '.join(syms)
+            if sp not in out and sp not in ('CROSS JOIN', 'OUTER JOIN'):
+                out.append(sp)
+    extra = [sp.lower() for sp in out if ' ' in sp] + [sp.title() for sp in out if 'OUTER' in sp]
+    return out + extra
+
+
+def join_kind_members():
+    out = []
+    for jk in join_spellings():
+        for onf in ON_FILTERS:
+            for wh in JK_WHERES:
+                out.append((jk, onf, wh, 'SELECT * FROM int1.tbl1 AS t %s int2.tbl2 AS u ON t.id = u.id AND %s JOIN mindsdb.pred AS m%s' % (jk, onf, wh)))
+    return out
+
+
+def check_join_kind_member(jk, onf, wh, sql):
+    """-> (problems, undecided)"""
+    from mindsdb_sql import parse_sql
+    from mindsdb_sql.parser.ast import BinaryOperation, Parameter as _Param, Select as _Select
+    from mindsdb_sql.exceptions import PlanningException
+    try:
+        plan = PL.plan_sql(sql, **PL.catalog())
+    except (PlanningException, NotImplementedError) as e:
+        return [], ['rejected: %s' % type(e).__name__]
+    except Exception as e:  # noqa
+        return ['planning raises an internal error %s: %s' % (type(e).__name__, str(e)[:80])], []
+    kind = ' '.join(jk.upper().replace('OUTER', '').split())
+    may_push_on = kind in ('JOIN', 'INNER JOIN', 'LEFT JOIN')
+
+    def conjuncts(text):
+        n = parse_sql('select 1 from t where ' + text, 'mindsdb').where
+        acc = []
+
+        def fl(x):
+            if isinstance(x, BinaryOperation) and x.op.lower() == 'and':
+                fl(x.args[0]); fl(x.args[1])
+            else:
+                acc.append(x)
+        fl(n)
+        return acc
+
+    def only_table(node, alias):
+        quals = {str(i.parts[0]).lower() for i in _nodes(node) if type(i).__name__ == 'Identifier' and len(i.parts) > 1}
+        return quals == {alias}
+    allowed = {'tbl1': [], 'tbl2': []}
+    for alias, tab in (('t', 'tbl1'), ('u', 'tbl2')):
+        if wh:
+            allowed[tab] += [c for c in conjuncts(wh.replace(' WHERE ', '')) if only_table(c, alias)]
+        if may_push_on:
+            allowed[tab] += [c for c in conjuncts(onf) if only_table(c, alias)]
+    problems, undecided = [], []
+    for f in PL.fetches(plan):
+        tabs = {str(t.parts[-1]).lower() for t in PL.tables_of(f.query)}
+        tab = 'tbl1' if 'tbl1' in tabs else 'tbl2' if 'tbl2' in tabs else None
+        if tab is None:
+            continue
+        w = f.query.where
+        if w is None:
+            continue
+        conj = []
+
+        def fl2(x):
+            if isinstance(x, BinaryOperation) and x.op.lower() == 'and':
+                fl2(x.args[0]); fl2(x.args[1])
+            else:
+                conj.append(x)
+        fl2(w)
+        for cnd in conj:
+            if any(isinstance(x, _Param) for x in _nodes(cnd)):
+                continue
+            alias = 't' if tab == 'tbl1' else 'u'
+            verdicts = []
+            for w_ in allowed[tab]:
+                import copy as _copy
+                w2 = _copy.deepcopy(w_)
+                for i in _nodes(w2):
+                    if type(i).__name__ == 'Identifier' and len(i.parts) > 1 and str(i.parts[0]).lower() == alias:
+                        i.parts = i.parts[1:]
+                verdicts.append(same_condition(cnd, w2))
+            if 'yes' not in verdicts:
+                txt = ' '.join(str(cnd).split())
+                if 'unknown' in verdicts:
+                    undecided.append(txt)
+                else:
+                    problems.append('fetch of %s is filtered by %r, which is neither a top-level WHERE conjunct on that table nor a conjunct of an inner / left join\'s ON clause on it (%s .. ON .. AND %s)'
+                                    % (tab, txt, jk, onf))
+    return problems, undecided
+
+
 def depends_on(plan, step_num):
     """numbers of the steps the result of step `step_num` is computed from (transitively)"""
     by_num = {s.step_num: s for s in plan.steps}
